@@ -46,8 +46,7 @@ def gen_world(rng, i, tier):
     if not gen.name_of(read):
         w["ep"] = "readConfig"
     elif rng.chance(0.1):
-        w["read"] = {"ep": "readFile", "path": "$ROOT/single/one.conf", "delim": "=", "comment": "#", "opts": {}}
-        w["nodes"] = [{"p": "$ROOT/single/one.conf", "t": "f", "entries": gen.file_entries(rng, 1)}]
+        gen.single_file_world(rng, w)
         w["ep"] = rng.pick(["readFile", "readFileCb"])
     elif read["ep"] == "readDirs":
         w["ep"] = rng.pick(["readDirs", "readDirsCb", "readDirsHistory", "readDirsHistoryCb"])
@@ -118,7 +117,7 @@ def layered_plan(world, fault, fill):
             faults = [{"k": "vanish", "path": p}]
         elif kind == "eio":
             faults = [{"k": "eio", "path": p, "a": 3}]
-    ops = gen.prologue_ops(read) if read["ep"] != "readFile" else []
+    ops = gen.prologue_ops(read)
     ops += sec
     ops += gen.layered_read_ops(read, cb=cb, init=world["init"], faults=faults, dump_ext=True)
     ops.append({"op": "security", "what": "reset"})
